@@ -294,3 +294,95 @@ Section Sessions.
     unfold session_requests. simpl. apply Forall_app. split; [now apply call_in_base | exact IH].
   Qed.
 End Sessions.
+
+(* ---------- constructors: every Repository value the library hands out has a valid base ---------- *)
+
+Section Constructors.
+  Variable avail : str -> bool.
+  Variable vr : str -> bool.
+
+  (* remote.NewRepository(s) *)
+  Theorem new_repository_base_ok s base :
+    new_repository avail vr s = Some base ->
+    vr (r_registry base) = true /\ valid_repository (r_repository base) = true.
+  Proof.
+    unfold new_repository. intro H. destruct (parse_wf avail vr s base H) as ([Hr _] & Hp & _). auto.
+  Qed.
+
+  (* remote.NewRegistry(name) followed by Registry.Repository(ctx, sub) *)
+  Theorem registry_repository_base_ok name sub reg base :
+    new_registry vr name = Some reg -> registry_repository reg sub = Some base ->
+    base = mkRef name sub [] /\ vr name = true /\ valid_repository sub = true.
+  Proof.
+    unfold new_registry, registry_repository. destruct (vr name) eqn:V; [|discriminate].
+    intro H. injection H as <-. destruct (valid_repository sub) eqn:P; [|discriminate].
+    intro H. injection H as <-. auto.
+  Qed.
+End Constructors.
+
+(* ---------- the Registry's own requests ---------- *)
+
+Lemma url_split_rooted plain reg p q :
+  reg_clean reg = true -> free [c_qm; c_hash] (c_slash :: p) ->
+  match q with Some qs => contains c_hash qs = false | None => True end ->
+  url_split (scheme plain ++ b "://" ++ host_of reg ++ (c_slash :: p) ++ match q with Some qs => c_qm :: qs | None => [] end)
+  = Some (mkParts (scheme plain) (host_of reg) (c_slash :: p) q None).
+Proof.
+  intros Hreg Fp Hq. unfold url_split.
+  change (b "://" ++ host_of reg ++ (c_slash :: p) ++ match q with Some qs => c_qm :: qs | None => [] end)
+    with (c_colon :: 47 :: 47 :: host_of reg ++ c_slash :: (p ++ match q with Some qs => c_qm :: qs | None => [] end)).
+  rewrite (take_until_stop [c_colon] (scheme plain) c_colon _ (scheme_free plain) eq_refl).
+  assert (Fh : free [c_slash; c_qm; c_hash] (host_of reg)).
+  { apply free_of_contains. intros x [<-|[<-|[<-|[]]]]; now apply host_of_clean. }
+  rewrite (take_until_stop _ _ c_slash _ Fh eq_refl).
+  destruct q as [qs|].
+  - change (c_slash :: p ++ c_qm :: qs) with ((c_slash :: p) ++ c_qm :: qs).
+    rewrite (take_until_stop _ _ c_qm _ Fp eq_refl).
+    assert (Fq : free [c_hash] qs) by (apply free_of_contains; intros x [<-|[]]; exact Hq).
+    rewrite (take_until_end _ _ Fq). reflexivity.
+  - rewrite app_nil_r. rewrite (take_until_end _ _ Fp). reflexivity.
+Qed.
+
+Definition reg_op_path (op : regop) : str := match op with RPing => b "/v2/" | RCatalog => b "/v2/_catalog" end.
+Definition reg_op_params (op : regop) (a1 num : str) : list (str * str) :=
+  match op with RPing => [] | RCatalog => opt_param (b "n") num ++ opt_param (b "last") a1 end.
+
+(* Ping and Repositories: one GET to exactly /v2/ resp. /v2/_catalog of the registry's host, no
+   user-info, no fragment, query = exactly the documented parameters *)
+Theorem reg_op_requests_exact (vr : str -> bool) op plain reg a1 num :
+  (forall r, vr r = true -> reg_clean r = true) -> vr reg = true -> bytes a1 -> bytes num ->
+  exists u q,
+    reg_op_requests op plain reg a1 num = [(m_get, u)] /\
+    url_split u = Some (mkParts (scheme plain) (host_of reg) (reg_op_path op) q None) /\
+    contains c_at (host_of reg) = false /\
+    match reg_op_params op a1 num with
+    | [] => q = None
+    | ps => exists qs, q = Some qs /\ parse_query qs = Some ps
+    end.
+Proof.
+  intros Hvr Hreg Ha Hn. pose proof (Hvr _ Hreg) as Hc.
+  assert (Hat : contains c_at (host_of reg) = false) by now apply host_of_clean.
+  assert (Bk : forall k, forallb (fun c => c <? 256) k = true -> bytes k).
+  { intros k H. apply Forall_forall. intros c Hin. rewrite forallb_forall in H. now apply N.ltb_lt, H. }
+  destruct op.
+  - exists (url_base plain (mkRef reg [] [])), None. split; [reflexivity|]. split; [|split; [exact Hat | reflexivity]].
+    unfold url_base. cbn [r_registry].
+    refine (eq_trans _ (url_split_rooted plain reg (b "v2/") None Hc _ I)).
+    + f_equal; try (rewrite ?app_nil_r; reflexivity).
+    + vm_compute; repeat constructor.
+  - assert (Hb : params_bytes (opt_param (b "n") num ++ opt_param (b "last") a1)).
+    { apply Forall_app. split; apply opt_param_bytes; auto; apply Bk; reflexivity. }
+    cbn [reg_op_params reg_op_path]. unfold reg_op_requests, with_query.
+    destruct (opt_param (b "n") num ++ opt_param (b "last") a1) as [|p ps] eqn:Eps.
+    + exists (url_catalog plain (mkRef reg [] [])), None. split; [reflexivity|]. split; [|split; [exact Hat | reflexivity]].
+      unfold url_catalog. cbn [r_registry].
+      refine (eq_trans _ (url_split_rooted plain reg (b "v2/_catalog") None Hc _ I)).
+      * f_equal; try (rewrite ?app_nil_r; reflexivity).
+      * vm_compute; repeat constructor.
+    + eexists. exists (Some (encode_params (p :: ps))). split; [reflexivity|]. split; [|split; [exact Hat|]].
+      * unfold url_catalog. cbn [r_registry].
+        refine (eq_trans _ (url_split_rooted plain reg (b "v2/_catalog") (Some (encode_params (p :: ps))) Hc _ (encode_params_no_hash _ Hb))).
+        -- f_equal; try (rewrite <- ?app_assoc; reflexivity).
+        -- vm_compute; repeat constructor.
+      * exists (encode_params (p :: ps)). split; [reflexivity|]. apply parse_query_encode; [discriminate | exact Hb].
+Qed.
